@@ -47,6 +47,10 @@ class ZNCCTemplateMatcher(BaseTemplateMatcher):
             boundary=boundary,
             min_distance=min_distance / scale,
             min_score=min_score,
+            # The landscape must be calculated beyond the chunk, otherwise its edge
+            # would be detected as a local maximum next to a particle in the
+            # neighboring chunk.
+            _extra_depth=int(np.ceil(min_distance / scale)) + 1,
         )
 
     def pick_in_chunk(
@@ -73,7 +77,8 @@ class ZNCCTemplateMatcher(BaseTemplateMatcher):
 
         pos = find_maxima(landscale_max, min_distance, min_score)
         argmax_indices = np.array(
-            [img_argmax[tuple(np.round(p).astype(np.int32))] for p in pos]
+            [img_argmax[tuple(np.round(p).astype(np.int32))] for p in pos],
+            dtype=np.intp,
         )
         score = _sample_score(landscale_max, pos)
         quats = self._index_to_quaternions(argmax_indices)
@@ -146,7 +151,7 @@ def find_maxima(img, min_distance: float, min_intensity: float):
     structure = np.stack([s0, s1, s0])
     label_img, nfeat = ndi.label(is_maxima, structure=structure)
     centers = ndi.center_of_mass(img, label_img, range(1, nfeat + 1))
-    return np.array(centers, dtype=np.float32)
+    return np.array(centers, dtype=np.float32).reshape(-1, img.ndim)
 
 
 def simple_pick(img: NDArray[np.float32], pos: NDArray[np.float32]):
@@ -157,6 +162,8 @@ def simple_pick(img: NDArray[np.float32], pos: NDArray[np.float32]):
 
 
 def _sample_score(img, pos: NDArray[np.float32]) -> NDArray[np.float32]:
+    if pos.shape[0] == 0:
+        return np.zeros(0, dtype=np.float32)
     return ndi.map_coordinates(img, pos.T, order=3, mode="reflect")
 
 
